@@ -14,6 +14,9 @@ pub enum Cmp {
     Greater,
     /// not equal, direction not prescribed by the oracle
     Unspecified,
+    /// the listed property does not say (e.g. funs differing only in arity, maps whose keys are
+    /// numerically equal but of different numeric type): any answer is accepted
+    Either,
 }
 
 impl From<Ordering> for Cmp {
@@ -41,6 +44,7 @@ impl Cmp {
             Cmp::Equal => o == Ordering::Equal,
             Cmp::Greater => o == Ordering::Greater,
             Cmp::Unspecified => o != Ordering::Equal,
+            Cmp::Either => true,
         }
     }
 }
@@ -124,7 +128,7 @@ fn key_sort_cmp(a: &Value, b: &Value) -> Ordering {
         Cmp::Greater => Ordering::Greater,
         // numerically equal but distinct, or distinct identifiers: fall back to a deterministic
         // structural order with Int < Float (derive order of the enum has Int first).
-        Cmp::Equal | Cmp::Unspecified => a.cmp(b),
+        Cmp::Equal | Cmp::Unspecified | Cmp::Either => a.cmp(b),
     }
 }
 
@@ -164,7 +168,13 @@ pub fn erl_cmp(a: &Value, b: &Value) -> Cmp {
             ys.sort_by(|p, q| key_sort_cmp(&p.0, &q.0));
             for (p, q) in xs.iter().zip(ys.iter()) {
                 match erl_cmp(&p.0, &q.0) {
-                    Cmp::Equal => continue,
+                    Cmp::Equal => {
+                        // keys == but not identical (1 vs 1.0 somewhere inside): Erlang orders the
+                        // integer first; the property statement is silent, accept any answer
+                        if p.0.canon() != q.0.canon() {
+                            return Cmp::Either;
+                        }
+                    }
                     other => return other,
                 }
             }
@@ -219,12 +229,20 @@ fn fun_cmp(a: &Value, b: &Value) -> Cmp {
             Value::Fun { arity: a1, uniq: u1, index: i1, module: m1, old_index: oi1, old_uniq: ou1, pid: p1, free: f1 },
             Value::Fun { arity: a2, uniq: u2, index: i2, module: m2, old_index: oi2, old_uniq: ou2, pid: p2, free: f2 },
         ) => {
-            if a1 != a2 || u1 != u2 || i1 != i2 || m1 != m2 || oi1 != oi2 || ou1 != ou2 || p1 != p2 || f1.len() != f2.len()
-            {
+            if u1 != u2 || i1 != i2 || m1 != m2 || oi1 != oi2 || ou1 != ou2 || p1 != p2 || f1.len() != f2.len() {
                 return Cmp::Unspecified;
             }
             match seq(f1, f2) {
-                Cmp::Equal => Cmp::Equal,
+                // the arity is implied by module/index/uniq in a real system; a pair differing in
+                // nothing but the arity is outside what the property pins down
+                Cmp::Equal => {
+                    if a1 != a2 {
+                        Cmp::Either
+                    } else {
+                        Cmp::Equal
+                    }
+                }
+                Cmp::Either => Cmp::Either,
                 _ => Cmp::Unspecified,
             }
         }
